@@ -8553,7 +8553,8 @@ has_coerce_constructor(CPPStructType *type) {
   // as requirement for non-reference-counted objects, since it simplifies the
   // implementation and it holds for all classes we need it for.
   if (!TypeManager::is_reference_count(type) &&
-      (!type->is_default_constructible() || !type->is_move_assignable())) {
+      (!type->is_default_constructible() || !type->is_move_assignable() ||
+       !type->is_destructible())) {
     return 0;
   }
 
